@@ -77,7 +77,21 @@ def fn_code_hash(fn: Callable, salt: str = None, environment: bytes = None) -> s
             sha256.update(json.dumps(attr_values, sort_keys=True).encode("utf-8"))
             return sha256.hexdigest()[0:16]
         else:
-            return repr(o)
+            return stable_repr(o)
+
+    def stable_repr(o):
+        """
+        repr() of a constant, except that the elements of a frozenset (the constant that
+        `x in {"a", "b"}` compiles to) are listed in sorted order: the iteration order of a
+        set of strings changes with hash randomisation, i.e. from process to process.
+
+        """
+        if isinstance(o, frozenset):
+            return "frozenset({" + ", ".join(sorted(stable_repr(x) for x in o)) + "})"
+        if isinstance(o, tuple):
+            inner = ", ".join(stable_repr(x) for x in o)
+            return "(" + inner + (",)" if len(o) == 1 else ")")
+        return repr(o)
 
     if isinstance(fn, MementoFunctionType):
         memento_fn = fn  # type: MementoFunctionType
